@@ -50,7 +50,7 @@ CHECKS = {
         "space (no depth bound) and checks idempotence of explicit setters, the documented meaning of argument-less forms, the frame of every call, mutual exclusion of the two "
         "escaping switches and restorability (both orders). All histories of two calls and seeded random walks of 30 calls are replayed through the public setters: the code's registers "
         "(hook VerifOptions, incl. derived lenAttrPrefix/trimRunes/special keys) must equal the specification state after EVERY call; at the end of each history every operation class "
-        "must be unaffected by resetting the registers the specification declares irrelevant for it, and after the explicit restore sequence all probes must equal a fresh process. The integrated specification Mxj.tla composes the register machine with the codec and query specifications: seeded random sessions of 24 steps over all setters and six operation classes (decode, cast decode, sequence decode, encode, leaf nodes, key search, leaf cast); TLC checks in every state that operations are functions of the registers (Functional) and depend only on their relevant registers (OnlyRelevant); the real package is stepped through each session and compared after every operation.",
+        "must be unaffected by resetting the registers the specification declares irrelevant for it, and after the explicit restore sequence all probes must equal a fresh process. The integrated specification Mxj.tla composes the register machine with the codec and query specifications: seeded random sessions of 24 steps over all setters and six operation classes (decode, cast decode, sequence decode, encode, leaf nodes, key search, leaf cast); TLC checks in every state that operations are functions of the registers (Functional) and depend only on their relevant registers (OnlyRelevant); the real package is stepped through each session and compared after every operation, and a snapshot of all registers is compared around every operation (operations leave the registers alone). Exhaustive session configurations add XMPP stream-tag handling (HandleXMPPStreamTag with the four decoder entry points on a <stream:stream> document) and calls of the legacy wrappers in between.",
    ref="DESIGN.md section 4, C18", technique="TLA+ register state machine, complete state space in TLC, history replay with state comparison after every call"),
  "C01": dict(
    text="TLA+ specification MxjXml of abstract XML documents and of the documented XML->Map conventions (Decode) written from the documentation, with character-level trimming, case folding, "
@@ -67,7 +67,7 @@ CHECKS = {
  "C03": dict(
    text="Same encoder specification applied to JSON-shaped values enumerated by the Map builder (attribute and text keys, empty containers, nil, nested/mixed lists, special characters, number and boolean tokens): "
         "TLC checks per key path that the leaf sequences of the value and of Decode(Encode(value)) agree, one root, and an error exactly for non-scalar attribute entries; the harness compares the exact bytes of "
-        "Map.Xml(), Map.Xml(root), AnyXml (Map and every top-level value) under both empty-element syntaxes, token equivalence of the indented forms, and the real decode of the output with the specification's. The whole space is run a second time under the attribute prefix @ and the reserved-key prefix _; bytes returned by an encoder are compared again after later encoder calls (held-result oracle).",
+        "Map.Xml(), Map.Xml(root), AnyXml (Map and every top-level value) under both empty-element syntaxes, token equivalence of the indented forms, and the real decode of the output with the specification's. The whole space is run a second time under the attribute prefix @ and the reserved-key prefix _; bytes returned by an encoder are compared again after later encoder calls (held-result oracle). MC_C03t extends the value space to the Go-typed values a caller may put into a Map (int, int32, int64, float32, json.Number, []byte, []string, []map[string]interface{}): the bytes must be those of the untyped value.",
    ref="DESIGN.md section 4, C03", technique="TLA+ encoder spec + declarative leaf-preservation theorem (TLC), byte-exact spec->code replay"),
  "C04": dict(
    text="TLA+ specification MxjSeq of the sequence-preserving codec: DecodeSeq (per-parent counter over children, text, comments, directives, processing instructions; attribute positions; prefix-preserving names) "
@@ -116,7 +116,7 @@ CHECKS = {
  "C20": dict(
    text="TLA+ module MxjLegacy: every exported function of j2x, x2j and x2j-wrapper with a core counterpart is listed with the composition it must equal, and x2j-wrapper's own walkers (PathsForKey, PathForKeyShortest, ValuesFromKeyPath, ValuesAtKeyPath) are specified "
         "declaratively over the core path semantics (attribute entries skipped at wildcard steps unless requested); TLC checks their agreement with the core operators on every Map of the bounded space and prints the expected results. The harness calls EVERY bound function "
-        "(the binding list is compared with the exported identifiers parsed from the three packages with go/parser: an unbound export or an uncalled binding fails the check) and compares with the specification's prediction and with the composition executed on the real core. MC_C20_deep adds chains 3-10 levels deep with a sibling after every hit; update wrappers are followed by read wrappers on the byte-identical document (wrappers are functions of their arguments).",
+        "(the binding list is compared with the exported identifiers parsed from the three packages with go/parser: an unbound export or an uncalled binding fails the check) and compares with the specification's prediction and with the composition executed on the real core. MC_C20_deep adds chains 3-10 levels deep with a sibling after every hit; update wrappers are followed by read wrappers on the byte-identical document (wrappers are functions of their arguments); value lists returned by the walkers are compared again after later calls. Sessions of Mxj.tla (operation `legacy`) show that the wrappers are the core under the registers in force and leave the registers alone.",
    ref="DESIGN.md section 4, C20", technique="TLA+ declarative wrapper specs + binding table (TLC), spec->code replay and differential against the core composition"),
 }
 NOT_YET = "machinery for this property is not built yet in this round (design in DESIGN.md section 4); no claim is made"
